@@ -16,9 +16,14 @@ def shape_ranges(chk, repo, clause):
                 raise AnalysisError(f'{key}: no returning path')
             ok, det = True, []
             for p in rets:
-                r = Ranges(loops=p.state.loops).of(p.ret)
+                rg = Ranges(loops=p.state.loops)
+                r = rg.of(p.ret)
                 good = r.within(0, 1) and (aa is TRUE or r.binary)
-                ok = ok and good
+                if not good and rg.unknown:
+                    ok = None if ok is not False else ok      # no verdict: a construct without a range model is involved
+                    det.append(f'undecided ({rg.unknown[0]}) [{conds_str(p)}]')
+                    continue
+                ok = (ok and good) if ok is not None else (False if not good else None)
                 det.append(f'{r!r} [{conds_str(p)}]')
             chk.ob(clause, 'R-range', key, f'values in [0,1]' + (', binary' if aa is FALSE else '') + f' [{label}]', ok,
                    'value range ' + '; '.join(det), f.loc())
